@@ -84,9 +84,10 @@ fn ref_adjacency(g: &GraphV<u16>) -> (BTreeSet<(End, End)>, BTreeSet<(End, End)>
 
 fn check_gfa(o: &mut Outcome, what: &str, txt: &str, g: &GraphV<u16>, tags: Option<&dyn Fn(usize) -> String>) {
     let k = g.k;
-    let mut lines = txt.lines();
-    if lines.next() != Some("H\tVN:Z:debruijn-rs") {
-        o.fail("gfa-header", format!("[{}] first line is not the header", what));
+    // header lines (record type H) may carry any version tag; they are not judged beyond being present first
+    let lines = txt.lines().skip_while(|l| l.starts_with("H\t") || *l == "H");
+    if !txt.starts_with('H') {
+        o.fail("gfa-header", format!("[{}] the export does not start with a header record", what));
     }
     let mut segs: BTreeMap<usize, usize> = BTreeMap::new();
     let mut got: BTreeMap<(End, End), usize> = BTreeMap::new();
@@ -185,10 +186,13 @@ fn check_json(o: &mut Outcome, what: &str, bytes: &[u8], g: &GraphV<u16>, rest: 
         o.fail("json-links-wrong", format!("[{}] {} links listed, graph has {} right-going links", what, links.len(), want.len()));
         return;
     }
-    for (l, (src, acc)) in links.iter().zip(want.iter()) {
-        let ok = l["source"] == json!(src) && acc.iter().any(|(t, d)| l["target"] == json!(t) && l["D"] == json!(d));
-        if !ok {
-            o.fail("json-links-wrong", format!("[{}] link {} but expected source {} -> one of {:?}", what, l, src, acc));
+    // the order of the link entries is not promised: match them as a multiset
+    let mut used = vec![false; want.len()];
+    for l in links.iter() {
+        let hit = (0..want.len()).find(|j| !used[*j] && l["source"] == json!(want[*j].0) && want[*j].1.iter().any(|(t, d)| l["target"] == json!(t) && l["D"] == json!(d)));
+        match hit {
+            Some(j) => used[j] = true,
+            None => o.fail("json-links-wrong", format!("[{}] link {} is not a (not yet listed) right-going link; expected {:?}", what, l, want)),
         }
     }
     if let Some(serde_json::Value::Object(m)) = rest {
